@@ -48,6 +48,19 @@ type Pool struct {
 	Chunk   int
 	mu      sync.Mutex
 	Crashes int
+	// MaxCrashes (0 = 40): once this many requests have killed or hung a process, the remaining
+	// requests are answered "SKIPPED" at once — the violation is established, the run must end.
+	MaxCrashes int
+}
+
+func (p *Pool) giveUp() bool {
+	p.mu.Lock()
+	defer p.mu.Unlock()
+	m := p.MaxCrashes
+	if m == 0 {
+		m = 40
+	}
+	return p.Crashes >= m
 }
 
 func New(argv []string, n int, timeout time.Duration) *Pool {
@@ -132,6 +145,12 @@ func (p *Pool) Map(reqs []string) []string {
 			for j := range jobs {
 				i := j.lo
 				for i < j.hi {
+					if p.giveUp() {
+						for ; i < j.hi; i++ {
+							out[i] = "SKIPPED"
+						}
+						break
+					}
 					if pr == nil {
 						var err error
 						pr, err = p.start()
